@@ -13,8 +13,10 @@ from ..common import (REPO, Report, cobs, cstr, clist, decide, load_findings, ru
 
 PROP = "C06"
 # the same object / constant at two or three positions (all (T, R1, R2[, R3]) combinations of a small forest)
-REPEAT_KINDS = ["rep2_fact", "rep2_goal", "rep2_cfact", "rep2_fluent", "rep2_cfluent", "rep2_tfluent",
-                "rep3_fact", "rep3m_fact", "rep3_fluent"]
+REPEAT_KINDS = ["rep2_fact", "rep2_goal", "rep2_cfact", "rep2_fluent", "rep2_cfluent",
+                "rep3_fact", "rep3m_fact", "rep3_fluent", "rep3e_fluent"]
+# trajectory fluents with a repeated argument (finding D31, open: name-keyed type check), in cases of their own
+TRAJ_REPEAT_KINDS = ["rep2_tfluent", "rep3_tfluent", "rep3m_tfluent", "rep3e_tfluent"]
 CONST_KINDS = ["cforall_pre", "cforall_eff"]       # D30 (repaired): quantifiers over constants, in cases of their own
 # several quantifiers in ONE action: shapes of the generated actions (see quant_domain_text)
 QUANT_SHAPES = ["eff", "pre", "when", "npre", "neff"]
@@ -255,12 +257,12 @@ def mk_quant_case(groups, trailing, rng, per_shape, hashseed):
             "acts": acts, "hashseed": hashseed, "domain_text": quant_domain_text(groups, trailing, names, acts)}
 
 
-def mk_case(groups, trailing, kind, sites=False, rng=None, witness_of=None, names=None, kinds=None):
+def mk_case(groups, trailing, kind, sites=False, rng=None, witness_of=None, names=None, kinds=None, klass=None):
     groups = [(list(cs), p) for cs, p in groups]
     trailing = list(trailing)
     names = names or all_names(groups, trailing)
     c = {"groups": groups, "trailing": trailing, "names": names, "kind": kind, "sites": bool(sites),
-         "witness_of": witness_of}
+         "witness_of": witness_of, "klass": klass}
     if sites:
         objs = [["o" + t, t] for t in names] + [["zz", "object"]]
         if rng is not None:
@@ -547,6 +549,8 @@ def build_cases(rng, tier, seed=0):
             lines, trailing = rng.choice(regroupings(par))
             gs, tr = apply_names(rng.sample(lines, len(lines)), trailing, name_map(len(par), rng))
             cases.append(mk_case(gs, tr, "forest-repeats", sites=True, rng=rng, kinds=REPEAT_KINDS))
+            cases.append(mk_case(gs, tr, "forest-trajectory-repeats", sites=True, rng=rng, kinds=TRAJ_REPEAT_KINDS,
+                                 klass="D31"))
     # 3b. quantifiers over CONSTANTS through the library's pipeline (finding D30), in cases of their own
     for par in (rng.sample(fs, 6) if tier == "quick" else fs):
         lines, trailing = rng.choice(regroupings(par))
@@ -586,6 +590,19 @@ def build_cases(rng, tier, seed=0):
             gs = [(list(cs), p) for cs, p in c["groups"]]
             gs.insert(rng.randint(0, len(gs)), ([x], q))
             cases.append(mk_case(gs, c["trailing"], "two-parents", sites=False))
+    # 4b. 'object' on a left-hand side (the declaration is dropped, its parent becomes a type): model agreement only
+    for c in rng.sample(base, min(len(base), 20 if tier == "quick" else 200)):
+        names_c = [n for n in all_names(c["groups"], c["trailing"]) if n != "object"]
+        gs = [(list(cs), p) for cs, p in c["groups"]]
+        q = rng.choice(names_c + ["zz9"])
+        if rng.random() < 0.5 and gs:
+            k = rng.randrange(len(gs))
+            cs = list(gs[k][0])
+            cs.insert(rng.randint(0, len(cs)), "object")
+            gs[k] = (cs, gs[k][1])
+        else:
+            gs.insert(rng.randint(0, len(gs)), (["object"], q))
+        cases.append(mk_case(gs, c["trailing"], "object-child", sites=False))
     # 5. random larger forests
     for _ in range(60 if tier == "quick" else 1500):
         n = rng.randint(5, 10)
@@ -746,7 +763,7 @@ def run(args):
                    "forall precondition (applicability on crafted states), forall-when effect (successor) and the same effect under joint execution (multi_agent.common.apply_actions); "
                    "ONE action with 2-3 quantified effects / quantified preconditions / quantified 'when' antecedents / a quantifier nested in a quantifier or in the antecedent of a quantified effect, "
                    "re-using a variable name with different types, with one type, or using distinct names, objects and constants of every type, under several PYTHONHASHSEEDs: which objects EACH quantifier touches.  Plus cyclic variants (must be "
-                   "rejected), two-parent variants (model agreement only), random forests with 5-10 types, the (:types) sections of the "
+                   "rejected), two-parent variants and 'object' on a left-hand side (model agreement only; what the model does there is proved: C06_any_section_*), token lists that are no sections (a list where a name is expected, dangling dashes; model agreement only), random forests with 5-10 types, the (:types) sections of the "
                    "repository's fixture domains.  Non-trivial: some type has a declared parent other than object (depth >= 2); distinct by input hash."
                    % (stats.get("forests", "-"),
                       "EVERY permutation" if exhaustive else "a sample of the permutations",
